@@ -403,7 +403,8 @@ Theorem holdsb_sound t : holdsb t = true -> t_quiet t = true ->
      forall i j d, (i < j)%nat -> (j < length (o_sent l))%nat -> (nth i (map fst (o_sent l)) d < nth j (map fst (o_sent l)) d)%N) /\
   (forall l, In l (t_in t) -> i_wr l = i_arr l /\ i_bad l = 0%N).
 Proof.
-  unfold holdsb. intros H Hq. rewrite Hq in H. apply andb_true_iff in H as [Ho Hi].
+  unfold holdsb. intros H Hq. rewrite Hq in H. apply andb_true_iff in H as [H _]. apply andb_true_iff in H as [H _].
+  apply andb_true_iff in H as [Ho Hi].
   rewrite forallb_forall in Ho, Hi. split.
   - intros l Hl. specialize (Ho l Hl). unfold olane_ok, same in Ho.
     apply andb_true_iff in Ho as [Ho H3]. apply andb_true_iff in Ho as [H1 H2].
